@@ -53,8 +53,13 @@ def gen(rng, tier):
         for _ in range(rng.randrange(3, 6)):
             st += [{"op": "down"}, {"op": "sleep", "n": rng.choice([1, 5, 30])}, {"op": "up"}, S(rng.randrange(100, 400))]
         scheds.append((True, st))
+        # a second outage while the redo of the first is still being ingested (default spool pacing, traffic faster than it)
+        cases.append({"steps": [S(1500), {"op": "down"}, {"op": "sleep", "n": 60}, {"op": "up"}, S(2500), {"op": "down"}, {"op": "sleep", "n": 60},
+                                {"op": "up"}, S(1000)],
+                      "start_up": True, "keepsafe_ms": 0, "connbuf": 1000, "iobuf": 4096, "spoolbuf": 10000, "pace_us": 200,
+                      "file_bytes": 1000000, "spool_sleep_us": 500})
         for start_up, steps in scheds:
-            cases.append({"steps": steps, "start_up": start_up, "keepsafe_ms": rng.choice([0, 300]), "connbuf": rng.choice([10, 100, 1000]),
+            cases.append({"steps": steps, "start_up": start_up, "spool_sleep_us": rng.choice([10, 10, 500]), "keepsafe_ms": rng.choice([0, 300]), "connbuf": rng.choice([10, 100, 1000]),
                           "iobuf": rng.choice([4096, 65536]), "spoolbuf": rng.choice([100, 10000]), "pace_us": rng.choice([50, 100, 100, 0]),
                           "file_bytes": rng.choice([20000, 200000, 1000000])})
     return cases
@@ -76,7 +81,7 @@ def nontrivial_key(case, obs):
 
 def sample(case, obs):
     return {"steps": case["steps"][:8], "tuning": {k: case[k] for k in ("keepsafe_ms", "connbuf", "spoolbuf", "pace_us", "file_bytes")},
-            "obs": {k: v for k, v in obs.items() if k != "log"}, "relay_events": len(obs["log"]) // 2}
+            "spool_sleep_us": case.get("spool_sleep_us", 10), "obs": {k: v for k, v in obs.items() if k != "log"}, "relay_events": len(obs["log"]) // 2}
 
 
 def distribution(cases):
